@@ -5,7 +5,8 @@
 From stdpp Require Import gmap strings.
 From Coq Require Import NArith.
 From Synnax Require Import Generated.Consts_C15 Core.Channel Core.ChannelKeys Core.ChannelAssign Core.ChannelInv
-  Core.ChannelShrink Core.ChannelCreate Core.ChannelHistory Core.ChannelWitness.
+  Core.ChannelShrink Core.ChannelCreate Core.ChannelHistory Core.ChannelCons Core.ChannelConsCreate
+  Core.ChannelNames Core.ChannelWitness.
 Local Open Scope N_scope.
 
 (* (1) A key embeds its leaseholder: NewKey is injective on (node <= 4095, local key <= 2^20-1) and
@@ -108,9 +109,41 @@ Theorem C15_engine_keys_local : forall s n k, Inv s -> is_Some (eng_of s n !! k)
 Proof. exact engine_keys_local. Qed.
 Print Assumptions C15_engine_keys_local.
 
-(* (7) Metadata = engines. The pinned upstream tree breaks it with one successful delete of a
-   leased virtual channel (finding F9, fixed by a4733ea): the deleted key stays in use in the
-   engine. On the current tree the same history is consistent and the key is gone. *)
+(* (7) Metadata = engines, current tree. [Cons]: every leased row is in its leaseholder's engine
+   with the same key, name, data type, index flag, index and virtual flag, and every engine channel
+   is such a row. Every SUCCESSFUL operation through any node keeps it — batched create with or
+   without retrieve-if-exists (no overwrite option, callers do not pass local keys), rename (each
+   key listed once), delete by key or by name, restart, counter bump — and so does every history of
+   such operations. The two guards are exactly the known findings F42 / F43 refuted below. *)
+Theorem C15_meta_eq_engine_partial : forall validate s o s' out,
+  Inv s -> Cons s -> op_wf s o -> plain_op o -> step true validate s o = (s', (EOk, out)) -> Cons s'.
+Proof. exact step_Cons. Qed.
+Print Assumptions C15_meta_eq_engine_partial.
+
+Theorem C15_meta_eq_engine_history_partial : forall validate ops s,
+  Inv s -> Cons s -> Forall (op_wf s) ops -> Forall plain_op ops -> all_ok_run validate s ops ->
+  Cons (run true validate s ops).
+Proof. exact run_Cons. Qed.
+Print Assumptions C15_meta_eq_engine_history_partial.
+
+(* the decidable check of the witnesses below is implied by [Cons] *)
+Theorem C15_cons_decidable : forall s, Cons s -> consistent_b s = true.
+Proof. exact Cons_consistent_b. Qed.
+Print Assumptions C15_cons_decidable.
+
+(* (7') Deleted channels are gone: after a successful delete from a consistent state none of the
+   listed keys is a metadata row or a channel of any node's engine (so retrieve / open writer / open
+   iterator on it find nothing at either layer), and by (5) it never is again. *)
+Theorem C15_deleted_gone : forall validate s gw keys s' out,
+  Inv s -> Cons s -> is_Some (s_eng s !! gw) ->
+  step true validate s (Delete gw keys) = (s', (EOk, out)) ->
+  forall k, k ∈ keys -> ~ seen s' k.
+Proof. exact delete_gone. Qed.
+Print Assumptions C15_deleted_gone.
+
+(* The pinned upstream tree breaks (7) with one successful delete of a leased virtual channel
+   (finding F9, fixed by a4733ea): the deleted key stays in use in the engine. On the current tree
+   the same history is consistent and the key is gone. *)
 Theorem C15_meta_eq_engine_upstream_refuted :
   all_ok false true w_s0 w_f9 = true /\ consistent_b (run false true w_s0 w_f9) = false /\
   key_in_use_b (run false true w_s0 w_f9) (new_key 2 1) = true.
@@ -132,7 +165,19 @@ Theorem C15_failed_delete_diverges :
 Proof. exact failed_delete_diverges. Qed.
 Print Assumptions C15_failed_delete_diverges.
 
-(* (8) Names. Upstream: a calculated channel created through a non-bootstrapper node gets two
+(* (8) Names. What an accepted validation guarantees, for every table and request: each name
+   matches the pattern, the request's names are pairwise different, and no row other than the
+   request's own key holds any of them (create passes keys that no row has, rename its own). *)
+Theorem C15_validate_names_sound : forall t keys names,
+  length keys = length names ->
+  validate_names t keys names false = (EOk, false) ->
+  Forall (fun n => valid_name n = true) names /\ NoDup names /\
+  forall i k n, keys !! i = Some k -> names !! i = Some n ->
+    forall k' c, t !! k' = Some c -> c_name c = n -> k' = k.
+Proof. exact validate_names_sound. Qed.
+Print Assumptions C15_validate_names_sound.
+
+(* Upstream: a calculated channel created through a non-bootstrapper node gets two
    indexes of the same name (finding F40, fixed by 34864a2). Current tree: the generated index
    name is still not validated on the bootstrapper (known finding F41). *)
 Theorem C15_names_unique_upstream_refuted :
@@ -145,16 +190,19 @@ Theorem C15_names_unique_refuted :
 Proof. exact f41_current. Qed.
 Print Assumptions C15_names_unique_refuted.
 
-(* Non-vacuity: the empty two-node cluster satisfies the invariant; a history creating an index, a
+(* Non-vacuity: the empty two-node cluster satisfies the invariant and is consistent; a history of
+   plain operations creating an index, a
    leased virtual, a free and a calculated channel through node 2, a data channel through node 1,
    renaming, deleting and retrieving succeeds at every step, ends consistent with valid unique
    names, the deleted key is in use nowhere and six keys are live. *)
 Example C15_nonvacuous :
-  Inv w_s0 /\ Forall (op_wf w_s0) w_ops /\ all_ok true true w_s0 w_ops = true /\
+  Inv w_s0 /\ Cons w_s0 /\ Forall plain_op w_ops /\ all_ok_run true w_s0 w_ops /\
+  Forall (op_wf w_s0) w_ops /\ all_ok true true w_s0 w_ops = true /\
   consistent_b (run true true w_s0 w_ops) = true /\ names_ok_b (run true true w_s0 w_ops) = true /\
   key_in_use_b (run true true w_s0 w_ops) (new_key 2 1) = false /\
   key_in_use_b (run true true w_s0 w_ops) (new_key 2 2) = true.
 Proof.
-  split; [exact w_s0_Inv|]. split; [repeat constructor; vm_compute; eauto|].
+  split; [exact w_s0_Inv|]. split; [exact w_s0_Cons|]. destruct w_ops_plain as [P1 P2].
+  split; [exact P1|]. split; [exact P2|]. split; [repeat constructor; vm_compute; eauto|].
   destruct w_ops_facts as (H1 & H2 & H3 & H4 & H5 & _). auto.
 Qed.
